@@ -72,6 +72,12 @@ func runC06(c *Ctx) {
 	ruleGoCapture(c)
 	R := c.R
 	_, s := c.Std()
+	// DATA and BDAT keep separate accounts (the reader's budget, bytesReceived): a DATA reader created while a chunked
+	// transfer is open would give one transaction both budgets
+	R.Rule("R-data-not-during-bdat", "E3 edge-feasibility", "no DATA reader is created while a chunked transfer is open", 1)
+	for _, site := range c.Sites(lNewReader) {
+		c.obUnreach("DATA reader", site, aPipeOpen)
+	}
 
 	R.Rule("R-limit-armed", "E1+E3", "newDataReader arms the limit (limited=true, n=MaxMessageBytes) whenever a limit is configured; limited=false is stored only after the backend callback returned", 4)
 	if f := c.A.Func("newDataReader"); f != nil {
